@@ -30,7 +30,7 @@ VERIFICATION_MESSAGES = (
 )
 
 
-def run(path, rlimit=30, seed=None, threads=16, timeout=900, extra=None):
+def run(path, rlimit=30, seed=None, threads=16, timeout=600, extra=None):
     cmd = [VERUS, path, "--error-format=json", "--output-json", "--time-expanded",
            "--rlimit", str(rlimit), "--num-threads", str(threads), "--multiple-errors", "25"]
     if seed is not None:
